@@ -159,6 +159,23 @@ func (e *Exec) Finish() {
 	}
 }
 
+// closeAtEnd closes the handle as the last step of a run, under the hang
+// monitor: a Close that never returns after an operation has failed is a wedged
+// database (the failed operation left something behind that Close waits for).
+func (e *Exec) closeAtEnd() {
+	if e.closed || e.DB == nil || e.V != nil || e.Ctl.TxOpen != 0 {
+		return
+	}
+	e.Ctl.ClearPlan()
+	callBegin()
+	defer callEnd()
+	func() {
+		defer func() { recover() }()
+		e.DB.Close()
+	}()
+	e.closed = true
+}
+
 func (e *Exec) fail(props []string, rule, msg string, feats map[string]string) {
 	if e.V != nil {
 		return
@@ -1318,6 +1335,8 @@ func (e *Exec) stepOne(op *Op) (qr queryResult) {
 						e.fail([]string{"C20"}, "C20/panic", fmt.Sprintf("Close panicked: %v", r), nil)
 					}
 				}()
+				callBegin()
+				defer callEnd()
 				err = e.DB.Close()
 			}()
 			if e.V != nil {
